@@ -6,7 +6,7 @@ import c07
 
 CONFIGS_QUICK = ["F_all", "F_nool"]  # every configuration whose cfg-gated code the property depends on
 CONFIGS_THOROUGH = ["F_all", "F_nool"]
-TECHNIQUE = 'static analysis: who-may-grow rule and guard extraction for the skipped-event queue, checkpoint/Drop pairing, replay-order call sequences, loop decision table of skip(), sequence-access table; compile-fail witness'
+TECHNIQUE = 'static analysis: who-may-grow rule and guard extraction for the skipped-event queue, checkpoint/Drop pairing, replay-order call sequences, loop decision table of skip(), sequence-access table; compile-fail witness, read_to_end table with loop-carried depth, compared-operand-is-the-name rule, filter polarity'
 EXPLANATION = (
     "Limit discipline of the skipped-event queue: write.push_back occurs only in skip_event, after the test "
     "`write.len() >= limit` -> TooManyEvents(limit), the limit is read nowhere else and the comparison is monotone in the "
